@@ -353,6 +353,12 @@ def r_keep(ck: Checker) -> None:
             arg = app.args[0]
             if isinstance(arg, ast.Call) and isinstance(arg.func, ast.Attribute) and arg.func.attr == "update" and any(kw.arg == "condition" for kw in arg.keywords):
                 cond_apps.append(app)
+        top_loops = [lp_ for lp_ in find_nodes(func.node, lambda n: isinstance(n, ast.For)) if enclosing_loop(func, lp_) is None]
+        cut = [b for lp_ in top_loops for b in find_nodes(lp_, lambda n: isinstance(n, (ast.Break, ast.Return))) if enclosing_loop(func, b) is lp_]
+        ck.add(f"{name}: the scan over the literals is never cut short", not cut and len(top_loops) == 1, func, cut[0] if cut else func.node, f"`break`/`return` inside the loop over the literals: {len(cut)}",
+               f"leaving the loop at a {what} whose condition is #false drops every literal behind it from the body")
+        if len(cond_apps) != 1 and cut:
+            continue  # the function was restructured around the early exit: reported above
         ck.need(len(cond_apps) == 1, f"{name} rebuilds the {what} with a cleaned condition at one site")
         app = cond_apps[0]
         cond = [kw.value for kw in app.args[0].keywords if kw.arg == "condition"][0]  # type: ignore[attr-defined]
